@@ -10,6 +10,7 @@ Check (C10_fold_sound : forall (O : fops) (X : xops O) (e : expr O),
 Check (C10_fold_sound_b64 : forall e : E,
   ~ Known_C10_identity b64ops e ->
   exists e', fold64 e = Some e' /\ forall env, eval64 env e' = eval64 env e).
+Check (C10_fold_never_panics : forall (O : fops) (e : expr O), exists e', fold O e = Some e').
 Check (eq_refl : Known_C10_identity = fun (O : fops) (e : expr O) => identity_fires O e = true).
 Check (C10_identity_refuted :
   let price := [112; 114; 105; 99; 101]%N in
@@ -21,3 +22,4 @@ Check (C10_identity_refuted :
 Print Assumptions C10_fold_sound.
 Print Assumptions C10_fold_sound_b64.
 Print Assumptions C10_identity_refuted.
+Print Assumptions C10_fold_never_panics.
